@@ -299,6 +299,7 @@ func runC14(c *Ctx) {
 	}
 	runConfSubProvenance(c, "R6")
 	runC14Reflect(c)
+	runC14Round3(c)
 }
 
 func nonDebugRefs(refs []ssa.Instruction) []ssa.Instruction {
